@@ -173,6 +173,12 @@ Qed.
 Lemma app_snoc_inj : forall (a c : fpath) x y, a ++ [x] = c ++ [y] -> a = c /\ x = y.
 Proof. intros a c x y H. apply app_inj_tail in H. exact H. Qed.
 
+Lemma filter_id : forall {A} (f : A -> bool) l, forallb f l = true -> filter f l = l.
+Proof.
+  induction l as [|x l IH]; intro H; [reflexivity|]. cbn in *. apply andb_true_iff in H as [H1 H2].
+  rewrite H1, (IH H2). reflexivity.
+Qed.
+
 (** * split, components, normalize *)
 
 Lemma split_slash_nonempty : forall s, split_slash s <> [].
